@@ -8,12 +8,22 @@ import c01_tables
 SPEC = {
     "translators": [c01_opcodes.run, c01_tables.run],
     "trusted": [
-        "C01: translate/c01_opcodes.py (opcode constants, first-pass and second-pass match arms of read_code -> coq/C01/Opcodes.v) and translate/c01_tables.py (attribute dispatch arms, flag bit tables -> coq/C01/Tables.v); both fail closed on any arm shape they do not recognise",
-        "C01: the harness' own class-file assembler and JVMS opcode table (harness/src/bin/c01/asm.rs), written from JVMS chapters 4 and 6 independently of duke; its encoder is compared with the model's encoder on every generated body (CEnc cases)",
+        "C01: translate/c01_opcodes.py (opcode constants; the first-pass and second-pass match arms of read_code -> coq/C01/Opcodes.v: per opcode the operand bytes skipped / label creation in pass 1, the Instruction constructor and the operand reads in pass 2) and translate/c01_tables.py (attribute dispatch arms of the five attribute loops, visitor calls of read_code, bit tables of the nine flag structs -> coq/C01/Tables.v); both fail closed on any arm shape they do not recognise",
+        "C01: the harness' own class-file assembler and JVMS opcode table (harness/src/bin/c01/asm.rs, written from JVMS chapters 4 and 6 independently of duke); its encoder is compared with the model's general encoder on every generated body (CEnc cases)",
+        "C01: fbh::classfile (independent strict parser `raw`, facts_from_raw / facts_from_duke / facts_of_spec, assembler with pool-order / attribute-order / encoding knobs, boundary constructions, vendored javac corpus) as the oracle for everything the Coq model does not cover (annotation and element-value trees, type annotations and paths, module, record, nest, inner-class, method-parameter data, signatures, descriptors of members)",
+        "C01: the specification side of C01_flags_match_jvms is the hand-transcribed bit table jvms_flags of coq/C01/Theory6.v (JVMS tables 4.1-B, 4.5-A, 4.6-A, 4.7.6-A, 4.7.24, 4.7.25)",
     ],
     "assumptions": [
-        "constant-pool strings enter the model decoded (MUTF-8 is not modelled); names and descriptors in the pools are valid (the validity predicates are C18's)",
-        "label identities are erased: a label is compared by the index of the instruction that carries it",
+        "constant-pool strings enter the model decoded (MUTF-8 is not modelled); names and descriptors in the pools are valid (the validity predicates of the name/descriptor newtypes are C18's and are not repeated in the pool model)",
+        "label identities are erased: a label is compared by the index of the instruction that carries it (offset = code length: the last label); a label attached to no instruction compares as None",
+        "the budget of 65536 expanded bootstrap arguments per instruction (pool.rs MAX_BOOTSTRAP_ARGUMENTS_EXPANDED) is not modelled; the nesting limit of 64 is",
+        "the byte-level framing of the label-carrying tables inside the Code attribute (exception table, LineNumberTable, LocalVariable(Type)Table, StackMapTable frame encodings) is not modelled: the model starts from their u16 fields; it is covered by the facts oracle against the independent parser",
+        "CLDC StackMap attributes and type annotations inside Code are outside the Coq model (compared by the facts oracle only)",
     ],
-    "stated_not_proved": [],
+    "stated_not_proved": [
+        "nothing_dropped_full (coq/C01/Theory6.v): forall c name, c <= 4 -> In name (ctx_known c) -> delivered c name  -- FALSE today: RuntimeVisibleParameterAnnotations / RuntimeInvisibleParameterAnnotations of methods are recognised and skipped (known finding F13p); proved instead: C01_nothing_dropped_partial (outside that class) and C01_nothing_dropped_refuted (the witness)",
+        "skeleton (DESIGN 5, C01 Th 0): magic/version gate, this/super/interfaces and member headers are not modelled in Coq; they are compared by the facts oracle (generated classes of versions 49..66 and the corpus) only",
+        "pool_layout_independent is proved in the direction 'resolves in p => resolves identically in the re-laid-out p''; the converse (an index that fails in p also fails in p') is not stated: it needs pi to be a bijection on the used indices",
+        "read_encode quantifies over the label-carrying tables as lists of u16 fields; that duke parses those fields from the attribute bytes as the JVMS lays them out is not a theorem (facts oracle + CClass correspondence on generated and corpus classes)",
+    ],
 }
